@@ -1720,9 +1720,26 @@ fn examine_pipe(tgt: Tgt, pipe: &Pipe, src: Option<&Prog>, id: &PipeId, report: 
                 }
             }
         }
+        // the function the source pipeline names for this stage kind (whatever the order the stages are written in)
+        // (HLSL: the entry point is the user's function; Metal wraps it in a generated `<Stage>ShaderEntry`)
+        if let (PipeId::Known(pd), true) = (id, tgt.is_hlsl()) {
+            let named: Vec<&(ShaderStage, String)> = pd.stages.iter().filter(|(st, _)| *st == s.stage).collect();
+            if named.len() == 1 {
+                let short = named[0].1.rsplit("::").next().unwrap_or(&named[0].1);
+                if s.entry_point == short || is_renamed(short, &s.entry_point) {
+                    report.count("stage:entry-is-the-function-named-for-the-stage");
+                } else {
+                    add(
+                        "stage-entry-mismatch",
+                        format!("stage {:?} reports entry point `{}` but the pipeline names `{}` for that stage", s.stage, s.entry_point, short),
+                        detail(),
+                    );
+                }
+            }
+        }
         // the size written in the source program
         if let (Some(src), PipeId::Known(pd)) = (src, id) {
-            if let Some((_, entry)) = pd.stages.get(si) {
+            if let Some((_, entry)) = pd.stages.iter().find(|(st, _)| *st == s.stage).or(pd.stages.get(si)) {
                 let short = entry.rsplit("::").next().unwrap_or(entry);
                 let candidates: Vec<&Func> = src.funcs.iter().filter(|f| f.owner.is_none() && f.name == short).collect();
                 if candidates.len() == 1 {
